@@ -201,7 +201,7 @@ def run(ctx, model_ok):
             ctx.nontrivial.add(repr((evs, cfg, proc)))
     # the command line: traces / callstacks with --tid, --process, -cf, -sf print the API's lines for those settings
     from . import cli_common
-    cli_common.run(ctx, ['traces', 'callstacks'], 30 if ctx.quick() else 500)
+    cli_common.run(ctx, ['traces', 'callstacks', 'logs'], 120 if ctx.quick() else 900)
     # static tie of c13_all_filters' hypothesis to the source: which registered decoders touch the tables
     tw = table_touching_names()
     if tw is not None:
